@@ -91,7 +91,7 @@ func (r *Run) eval(key string, nontrivial bool) {
 func (r *Run) fail(f Failure) {
 	r.nFail++
 	f.Property = r.prop
-	if len(r.failures) < 200 {
+	if len(r.failures) < 50000 {
 		r.failures = append(r.failures, f)
 	}
 }
